@@ -148,6 +148,11 @@ def run(ctx):
                                    "classification": {"kind": "not-rejected", "name_class": cl},
                                    "replay": {"kind": "input", "name": name, "op": opn, "writer": str(w), "scenario": lines, "result": rest}})
             bad_muts = [t for t in muts if not (str(t[1]).startswith("stage/") or str(t[1]).startswith("systmp"))]
+            if cl == "nul":
+                # the validation rule accepts the name; std::fs refuses it (InvalidInput) before any
+                # system call on the entry's path.  "Modifies nothing" is the snapshot; the retry's
+                # mkdir -p of the (existing) cache directory is an attempt confined to that directory.
+                bad_muts = [t for t in bad_muts if not (t[0] == "mkdir" and allowed(T.unesc(str(t[1])), w, name))]
             if bad_muts or not snap_same:
                 violations.append({"what": "an operation on the rejected name %r (%s) modified the world: %s %s" % (name, cl, [T.fmt(t) for t in bad_muts[:3]], changed[:3]),
                                    "classification": {"kind": "rejected-but-modified", "name_class": cl},
